@@ -380,6 +380,12 @@ func (m *Machine) envIntrinsic(name string, fn *ssa.Function, args []Value) (Val
 			e.event(fmt.Sprintf("flock fd%d LOCK_NB", fo.id))
 		}
 		return nilErr, true
+	case "syscall.FcntlFlock":
+		// POSIX record locks belong to the process, not to the open file description: they do not
+		// make this descriptor hold the flock-style lock the property is about
+		m.stub(name)
+		e.event("fcntl lock (process-owned)")
+		return nilErr, true
 	case "(*os.File).Close":
 		m.stub(name)
 		m.sideEffect(name)
@@ -430,6 +436,9 @@ func (m *Machine) envIntrinsic(name string, fn *ssa.Function, args []Value) (Val
 		}
 		if m.branch(e.fault("truncate")) {
 			return m.newErr("truncate: error", nil), true
+		}
+		if fo.flags&3 == oRDONLY {
+			return m.newErr("truncate: invalid argument (descriptor not open for writing)", nil), true
 		}
 		if sz < 0 || sz > 1<<20 {
 			m.unsupported(fmt.Sprintf("Truncate to %d bytes", sz))
